@@ -65,17 +65,24 @@ def DATEDIF(
     datetime_start_date = utils.number_to_datetime(int(start_date))
     datetime_end_date = utils.number_to_datetime(int(end_date))
 
+    # Complete years / months: rrule skips occurrences whose day does not
+    # exist in the month (the 29th, 30th, 31st), so count arithmetically.
     if str(unit).upper() == 'Y':
-        date_list = list(rrule.rrule(rrule.YEARLY,
-                                     dtstart=datetime_start_date,
-                                     until=datetime_end_date))
-        return len(date_list) - 1  # end of day to end of day / "full days"
+        years = datetime_end_date.year - datetime_start_date.year
+        if datetime_end_date.month < datetime_start_date.month or (
+                datetime_end_date.month == datetime_start_date.month
+                and datetime_end_date.day < datetime_start_date.day):
+            years -= 1
+        return years
 
     elif str(unit).upper() == 'M':
-        date_list = list(rrule.rrule(rrule.MONTHLY,
-                                     dtstart=datetime_start_date,
-                                     until=datetime_end_date))
-        return len(date_list) - 1  # end of day to end of day / "full days"
+        months = (
+            (datetime_end_date.year - datetime_start_date.year) * 12
+            + datetime_end_date.month - datetime_start_date.month
+        )
+        if datetime_end_date.day < datetime_start_date.day:
+            months -= 1
+        return months
 
     elif str(unit).upper() == 'D':
         date_list = list(rrule.rrule(rrule.DAILY,
